@@ -229,12 +229,15 @@ func (e c22Env) Each(f func(string, expand.Variable) bool) {
 	}
 }
 
-func c22Fields(cs c22Case) string { return c22Expand(cs, false) }
+func c22Fields(cs c22Case) string { return c22Expand(cs, 0) }
 
 // c22Literal: expand.Literal on the same word (assignment context).
-func c22Literal(cs c22Case) string { return c22Expand(cs, true) }
+func c22Literal(cs c22Case) string { return c22Expand(cs, 1) }
 
-func c22Expand(cs c22Case, literal bool) string {
+// c22LiteralKeep: the unexported literalKeepEscapes (hook /repo/expand/verif_c22.go).
+func c22LiteralKeep(cs c22Case) string { return c22Expand(cs, 2) }
+
+func c22Expand(cs c22Case, mode int) string {
 	src, vars := c22Word(cs.parts, false)
 	var out string
 	p := safely(func() {
@@ -277,8 +280,12 @@ func c22Expand(cs c22Case, literal bool) string {
 				return nil
 			},
 		}
-		if literal {
-			v, err := expand.Literal(cfg, call.Args[1])
+		if mode != 0 {
+			lit := expand.Literal
+			if mode == 2 {
+				lit = expand.VerifC22LiteralKeepEscapes
+			}
+			v, err := lit(cfg, call.Args[1])
 			if err != nil {
 				out = "error"
 				return
@@ -540,14 +547,6 @@ func c22AsgScript(cs c22Case) string {
 	return sb.String()
 }
 
-func c22HasLitBackslash(cs c22Case) bool {
-	for _, p := range cs.parts {
-		if p.kind == 'L' && strings.Contains(p.val, "\\") {
-			return true
-		}
-	}
-	return false
-}
 
 func c22Search(c *Ctx, cs c22Case, asg bool) (bool, string) {
 	script := c22Script(cs)
@@ -850,10 +849,10 @@ func c22RunCase(c *Ctx, cs c22Case, spec bool) {
 	// the same word in assignment context (expand.Literal)
 	lit := c22Literal(cs)
 	c.Op("lit "+c22OpArgs(cs, true), lit)
-	// spec op outside finding C22-assign-backslash (unquoted literal with a backslash)
-	if spec && !c22HasLitBackslash(cs) && lit != "panic" && lit != "error" && !strings.HasPrefix(lit, "parse") {
+	if spec && lit != "panic" && lit != "error" && !strings.HasPrefix(lit, "parse") {
 		c.Op("speclit "+c22OpArgs(cs, true), lit)
 	}
+	c.Op("litkeep "+c22OpArgs(cs, true), c22LiteralKeep(cs))
 }
 
 func c22(c *Ctx) {
@@ -911,9 +910,7 @@ func c22(c *Ctx) {
 			ex, _ := c22Excluded(cs)
 			asg := i%5 == 4
 			ok := !c22BashArtifact(cs)
-			if asg {
-				ok = ok && !c22HasLitBackslash(cs)
-			} else {
+			if !asg {
 				ok = ok && !ex && !c22BashAtAfterDelim(cs)
 			}
 			// the script carries every value in single quotes: NUL cannot be written
